@@ -29,7 +29,7 @@ Theorem C14_ncx_balanced : forall title s, Exp.fmt s = Exp.FX -> Forall TocStr.e
   Tok.no_c 62 (Xhtml.X.param "epub-uuid" s) = true -> Tok.textual title -> TocStr.balanced_chunk (fst (Xhtml.X.toc_ncx title s)).
 Proof. exact Epub.toc_ncx_balanced. Qed.
 Theorem C14_package_balanced : forall title s, Tok.textual title -> Tok.textual (Xhtml.X.param "epub-uuid" s) ->
-  Tok.textual (Xhtml.X.param "document-author" s) -> Forall (Epub.ref_ok s) (Xhtml.X.chap_entries s) ->
+  Tok.textual (Xhtml.X.param "document-author" s) -> Tok.textual (Xhtml.X.param "epub-subject" s) -> Forall (Epub.ref_ok s) (Xhtml.X.chap_entries s) ->
   TocStr.balanced_chunk (fst (Xhtml.X.content_opf title s)).
 Proof. exact Epub.content_opf_balanced. Qed.
 Print Assumptions C14_package_balanced.
